@@ -33,9 +33,12 @@ Pool == << [t |-> I07, tag |-> <<2, 1>>],          \* [1]
            [t |-> PlainSeq, tag |-> <<>>],         \* UNIVERSAL 16
            [t |-> TOct(Sz(1, 1, FALSE)), tag |-> <<>>],   \* UNIVERSAL 4
            [t |-> I07, tag |-> <<0, 30>>],         \* [UNIVERSAL 30]
-           [t |-> TBool, tag |-> <<2, 0>>] >>      \* [0]
+           [t |-> TBool, tag |-> <<2, 0>>],        \* [0]
+           \* an untagged list (OPTIONAL, as every even entry): UNIVERSAL 16 like PlainSeq - never the tag of its element
+           [t |-> TSeqOf(TBool, Sz(1, 2, FALSE)), tag |-> <<>>] >>
 
-Sel(k) == {s \in [1..k -> 1..Len(Pool)] : \A i, j \in 1..k : i # j => s[i] # s[j]}
+\* (entries 8 and 12 share UNIVERSAL 16 and cannot be components of one SET)
+Sel(k) == {s \in [1..k -> 1..Len(Pool)] : (\A i, j \in 1..k : i # j => s[i] # s[j]) /\ ~({8, 12} \subseteq {s[i] : i \in 1..k})}
 \* the first six pool entries form the compiled family
 SelC(k) == {s \in [1..k -> 1..6] : \A i, j \in 1..k : i # j => s[i] # s[j]}
 
@@ -56,6 +59,7 @@ ValOf(t, allPresent) ==
                  [] ct.k = "bool" -> (i % 2 = 1)
                  [] ct.k = "oct" -> <<16 + i>>
                  [] ct.k = "seq" -> << <<(i % 2 = 0)>> >>
+                 [] ct.k = "seqof" -> <<(i % 2 = 1)>>
                  [] ct.k = "choice" -> [i |-> 0, v |-> i]>>]
 
 Seeds == [kind : {"order"}, s : Sel(K) \cup Sel(K - 1), xa : 0..(K - 1), isSet : BOOLEAN]
